@@ -7,6 +7,7 @@ import (
 	"net"
 	"sort"
 	"strings"
+	"sync/atomic"
 	"time"
 
 	"github.com/datastax/go-cassandra-native-protocol/message"
@@ -254,6 +255,81 @@ func unpreparedAlongThePlan(c *Ctx, idx int) {
 	if ri.Kind != "Rows" || ri.Tok != tok {
 		r.Violate(mon.Violation{Signature: "C05/unprepared-along-the-plan/not-failed-over-to-healthy-host/" + first, Detail: fmt.Sprintf("%d hosts, all without the statement (it is in the proxy's prepared cache); the first %d execution(s) are answered %s once re-prepared, the next would be answered with rows and the policy prescribes another attempt: the client got %s %q; the request was executed on %d host(s) (attempts %s)", hosts, nErr, first, ri.Kind, ri.ErrMsg, len(executed), describe(attempts)), Scenario: scenario, Witness: attempts})
 	}
+}
+
+// connLostDuringReprepare: an EXECUTE reaches a host that has forgotten the statement, is answered UNPREPARED, and the
+// connection is lost while the proxy's own PREPARE is in flight there (step two of the three-step re-prepare). That is a
+// connection loss like any other: the idempotent request moves on to the next host and ends with its rows, the
+// non-idempotent one is not sent anywhere else and the client receives the connection-lost error.
+func connLostDuringReprepare(c *Ctx, idx int) {
+	r := c.R
+	hosts := 2 + idx%3
+	idem := idx%2 == 0
+	kind := []ReqKind{KExecute, KBatch}[(idx/2)%2]
+	key := fmt.Sprintf("conn-lost-during-reprepare/h%d/idem=%v/%v", hosts, idem, kind)
+	scenario := map[string]interface{}{"kind": "conn-lost-during-reprepare", "idx": idx}
+	c.Step("c05 %s", key)
+	bed, err := px.NewBed(px.BedConfig{Hosts: hosts, NumConns: 1, Keyspaces: []string{"ks1"}, ReconnectBase: 20 * time.Millisecond, ReconnectMax: 50 * time.Millisecond})
+	if err != nil {
+		r.Inconc("conn-lost-during-reprepare: cannot start bed: " + err.Error())
+		return
+	}
+	defer bed.Close()
+	bed.OnHook(nil)
+	var dropped int32
+	bed.Cluster.SetScript(func(a *fakecass.Arrival) fakecass.Outcome {
+		// the first re-prepare (a PREPARE of a standard statement carries no token) loses its connection unanswered
+		if a.OpCode == primitive.OpCodePrepare && a.N == 0 && atomic.CompareAndSwapInt32(&dropped, 0, 1) {
+			o := fakecass.DropBefore()
+			o.Name = "ConnLost"
+			return o
+		}
+		return fakecass.Outcome{}
+	})
+	cl, err := bed.ReadyClient(primitive.ProtocolVersion4, []string{"", "lz4"}[(idx/4)%2])
+	if err != nil {
+		r.Inconc("conn-lost-during-reprepare: handshake: " + err.Error())
+		return
+	}
+	defer cl.Close()
+	if err := PrepareStandard(bed, cl, true); err != nil {
+		r.Inconc("conn-lost-during-reprepare: prepare: " + err.Error())
+		return
+	}
+	atomic.StoreInt32(&dropped, 0)
+	for _, h := range bed.Cluster.Hosts {
+		h.Forget()
+	}
+	tok := NewTok()
+	mark := bed.Log.Len()
+	reply, werr := cl.CallF(BuildRequest(primitive.ProtocolVersion4, 1, kind, idem, tok, primitive.ConsistencyLevelOne), 20*time.Second)
+	r.Eval(1)
+	r.Obs("conn_lost_during_reprepare_cases", 1)
+	attempts := Traces(bed.Log.Snapshot()[mark:])[tok]
+	reached := map[int]bool{}
+	for _, a := range attempts {
+		reached[a.Host] = true
+	}
+	if atomic.LoadInt32(&dropped) == 1 {
+		r.NonTrivial(key)
+	} else {
+		r.Obs("conn_lost_during_reprepare_without_reprepare", 1)
+		return
+	}
+	if werr != nil || reply == nil {
+		r.Violate(mon.Violation{Signature: "C05/conn-lost-during-reprepare/no-reply", Detail: fmt.Sprintf("%s: no reply (attempts %s)", key, describe(attempts)), Scenario: scenario, Witness: attempts})
+		return
+	}
+	ri := replyInfoComp([]string{"", "lz4"}[(idx/4)%2], reply)
+	switch {
+	case idem && (ri.Kind != "Rows" && !strings.HasPrefix(ri.Kind, "Void") || len(reached) < 2):
+		r.Violate(mon.Violation{Signature: "C05/conn-lost-during-reprepare/idempotent-not-failed-over", Detail: fmt.Sprintf("%s: the connection was lost while the proxy re-prepared the statement on the first host; the other host(s) are healthy and the policy prescribes the next host for an idempotent request: the client got %s %q after reaching %d host(s) (attempts %s)", key, ri.Kind, ri.ErrMsg, len(reached), describe(attempts)), Scenario: scenario, Witness: attempts})
+	case !idem && len(reached) > 1:
+		r.Violate(mon.Violation{Signature: "C05/conn-lost-during-reprepare/non-idempotent-sent-to-another-host", Detail: fmt.Sprintf("%s: the connection was lost while the proxy re-prepared the statement on the first host; the policy prescribes no retry after a connection loss for a request that is not idempotent, but it reached %d hosts and the client got %s %q (attempts %s)", key, len(reached), ri.Kind, ri.ErrMsg, describe(attempts)), Scenario: scenario, Witness: attempts})
+	case !idem && !strings.HasPrefix(ri.Kind, "Error"):
+		r.Violate(mon.Violation{Signature: "C05/conn-lost-during-reprepare/non-idempotent-answered-without-error", Detail: fmt.Sprintf("%s: the client got %s although its only attempt lost its connection (attempts %s)", key, ri.Kind, describe(attempts)), Scenario: scenario, Witness: attempts})
+	}
+	r.Obs("conn_lost_during_reprepare_outcome:"+strings.SplitN(ri.Kind, " ", 2)[0], 1)
 }
 
 // planAcrossCounterWrap: the load balancer's plan counter is preset (tag-guarded knob) just below 2^32 and just below 2^64,
